@@ -133,10 +133,8 @@ func (e *Exec) callFn(s *State, c *ssa.Call, fn *ssa.Function, args []Val) []Out
 	key := fnKey(fn)
 	if strings.HasPrefix(pkg, e.w.modPath) {
 		if con := e.w.specs.contractFor(pkg, key); con != nil && !e.noContract[key] && !(e.fnUnder == fn && len(s.Frames) == 0) {
-			if _, isModel := con.option("inline"); !isModel {
-				e.stats.ByContract[key]++
-				return e.applyContract(s, c, fn, con, args)
-			}
+			e.stats.ByContract[key]++
+			return e.applyContract(s, c, fn, con, args)
 		}
 		if fn.Blocks == nil {
 			unsupported("no body for %s", full)
